@@ -52,7 +52,23 @@ def put(s, name, body):
     i, j = s.index(b) + len(b), s.index(e)
     return s[:i] + "\n" + body + "\n" + s[j:]
 
+def inventory():
+    out = ["| property | theorems in Props/Cxx.v (closed with `exact`/`vm_compute`, `Print Assumptions` read every run) | translators | proof and model targets |", "|---|---|---|---|"]
+    for i in range(1, 21):
+        pid = f"C{i:02d}"
+        try:
+            m = importlib.import_module(f"checks.{pid}")
+        except Exception as e:
+            continue
+        src = open(f"/verif/coq/Props/{pid}.v").read()
+        names = re.findall(r"^\s*(?:Theorem|Lemma)\s+([A-Za-z0-9_']+)", src, re.M)
+        sp = m.SPEC
+        tg = [t.replace(".vo", "") for t in sp.get("proof_targets", []) + sp.get("model_targets", [])]
+        out.append(f"| {pid} | {len(names)}: " + ", ".join(f"`{n}`" for n in names) + " | " + ", ".join(sp.get("translators", [])) + " | " + ", ".join(tg) + " |")
+    return "\n".join(out)
+
 s = open(D).read()
+s = put(s, "inventory", inventory())
 s = put(s, "translators", translators())
 s = put(s, "hooks", hooks())
 s = put(s, "assumptions", assumptions())
